@@ -15,11 +15,7 @@ LEVEL = {"C20": "model_checking"}
 
 
 def viols_of(out):
-    res = []
-    txt = out.replace("\n", " ")
-    for m in re.finditer(r'<<\s*"VIOL",\s*"([^"]+)",\s*(\d+),(.*?)>>\s*(?=<<\s*"(?:VIOL|ACCEPTED)")', txt):
-        res.append((m.group(1), int(m.group(2)), " ".join(m.group(3).split())[:500]))
-    return res
+    return C.parse_viols(out["output"] if isinstance(out, dict) else out)
 
 
 def run_c20(ctx):
